@@ -70,4 +70,19 @@ theorem schedules_currentFrequency_refines (pre : List (Int × Int)) (sd fr : In
     intro x l; simp
   simp [minigo, schedules_currentFrequency, schedState, schedRec, h1, hidx]
 
+/-- **the regenerated `Runner.Stop`**: cancel, *then* wait until the runner's goroutine has signalled that it is gone -/
+theorem runner_Stop_refines (ext : Ext Rat) : traceOf (runFn ext 0 runner_Stop (State.ofVars [])) = ["recv.cancel", "receive recv.stopped"] := by
+  simp [minigo, runner_Stop]
+
+/-- `Restart` hands one token to the runner's goroutine; `startFirst` / `startNext` start schedule 0 / the one after the
+current; `stop` stops both the ticker and the next-schedule timer -/
+theorem runner_helpers_refine (ext : Ext Rat) (cur : Int) :
+    traceOf (runFn ext 0 runner_Restart (State.ofVars [])) = ["send recv.restart"] ∧
+    observe (runFn ext 0 schedules_startFirst (State.ofVars [("recv.currentScheduleIndex", .int cur)])) ["$arg.recv.start.0"] =
+      some ([], [some (.int 0)]) ∧
+    observe (runFn ext 0 schedules_startNext (State.ofVars [("recv.currentScheduleIndex", .int cur)])) ["$arg.recv.start.0"] =
+      some ([], [some (.int (cur + 1))]) ∧
+    traceOf (runFn ext 0 schedules_stop (State.ofVars [])) = ["recv.ticker.Stop", "recv.nextScheduleTimer.Stop"] := by
+  simp [minigo, runner_Restart, schedules_startFirst, schedules_startNext, schedules_stop]
+
 end F1.Props.Refine
